@@ -111,7 +111,7 @@ def explore(run, tier):
             z = data[:hdr + po] + ('0' * pl).encode(codec) + data[hdr + co + cl:]
             cases.append(dict(base, data=z.hex(), mut='zerolen'))
         # bitmap bits added / removed
-        for bit in sorted(rng.sample(range(2, 129), 10)) + [128, 127, 65, 64, 2]:
+        for bit in sorted(rng.sample(range(2, 129), 10)) + [128, 127, 65, 64, 2, 1]:
             raw = bytearray(bytes.fromhex(data[4:36].decode('ascii')) if hexbm else data[4:20])
             raw[(bit - 1) // 8] ^= 0x80 >> ((bit - 1) % 8)
             bmp = raw.hex().encode('ascii') if hexbm else bytes(raw)
